@@ -7,10 +7,10 @@ package main
 
 import (
 	"fmt"
+	"go/ast"
 	"go/parser"
 	"go/printer"
 	"go/token"
-	"go/ast"
 	"io"
 	"regexp"
 	"sort"
@@ -316,12 +316,12 @@ func (e *specEval) eval(n *Obj, st sstate) []sres {
 		return out
 	case "TypeCharacter":
 		rs := []rune(m.strOf(n))
-		return term(func(r rune) bool { return r == rs[0] }, func(yes string) string { return "A{" + yes + "}(" + st.pos + ")" })
+		return term(func(r rune) bool { return r == rs[0] }, func(yes string) string { return "A(" + st.pos + ")" })
 	case "TypeRange":
 		lo, hi := []rune(m.strOf(ks[0]))[0], []rune(m.strOf(ks[1]))[0]
-		return term(func(r rune) bool { return r >= lo && r <= hi && r != uEnd }, func(yes string) string { return "A{" + yes + "}(" + st.pos + ")" })
+		return term(func(r rune) bool { return r >= lo && r <= hi && r != uEnd }, func(yes string) string { return "A(" + st.pos + ")" })
 	case "TypeDot":
-		return term(func(r rune) bool { return r != uEnd }, func(yes string) string { return "A{" + yes + "}(" + st.pos + ")" })
+		return term(func(r rune) bool { return r != uEnd }, func(yes string) string { return "A(" + st.pos + ")" })
 	case "TypeString":
 		s := m.strOf(n)
 		rs := []rune(s)
